@@ -318,6 +318,96 @@ func c25(x *ctx) {
 			refs = append(refs, cref{i, k, expDiag, "arity"})
 		}
 	}
+	// members that share a name: an instance and a singleton method `size` with different signatures, in both
+	// member orders, followed by an alias of either kind (and one alias placed between the definitions); every
+	// emitted entry must keep the signature of its own kind, and an alias must equal its same-kind target
+	{
+		fn := func(nreq int, ret string) map[string]any {
+			ps := []any{}
+			for i := 0; i < nreq; i++ {
+				ps = append(ps, map[string]any{"type": rbsType("Integer"), "name": fmt.Sprintf("r%d", i)})
+			}
+			return map[string]any{"required_positionals": ps, "optional_positionals": []any{}, "rest_positionals": nil, "trailing_positionals": []any{},
+				"required_keywords": map[string]any{}, "optional_keywords": map[string]any{}, "rest_keywords": nil, "return_type": rbsType(ret)}
+		}
+		mdef := func(name, kind string, ft map[string]any) map[string]any {
+			return map[string]any{"member": "method_definition", "name": name, "kind": kind, "visibility": "public", "comment": nil,
+				"overloads": []any{map[string]any{"method_type": map[string]any{"type_params": []any{}, "type": ft, "block": nil}}}}
+		}
+		want := map[string][2]string{"instance": {"0", "Int"}, "singleton": {"1", "String"}} // kind -> (argument count, return type)
+		n := 0
+		for _, order := range []string{"instance-first", "singleton-first"} {
+			for _, aliasKind := range []string{"instance", "singleton"} {
+				for _, aliasPos := range []string{"after-both", "between"} {
+					n++
+					inst, sing := mdef("size", "instance", fn(0, "Integer")), mdef("size", "singleton", fn(1, "String"))
+					al := map[string]any{"member": "alias", "new_name": "length", "old_name": "size", "kind": aliasKind}
+					first, second := inst, sing
+					firstKind := "instance"
+					if order == "singleton-first" {
+						first, second, firstKind = sing, inst, "singleton"
+					}
+					if aliasPos == "between" && aliasKind != firstKind {
+						continue // the alias would precede its target
+					}
+					members := []any{first, second, al}
+					if aliasPos == "between" {
+						members = []any{first, al, second}
+					}
+					decl := []any{map[string]any{"declaration": "class", "name": "Rbone", "type_params": []any{}, "members": members, "super_class": nil, "comment": nil}}
+					b, _ := json.MarshalIndent(decl, "", "  ")
+					ast := filepath.Join(work, fmt.Sprintf("multi%d.json", n))
+					os.WriteFile(ast, b, 0o644)
+					out, err := runConv(x.bins.Rbs, "", ast)
+					r.Evaluations++
+					r.Transitions++
+					r.Nontrivial++
+					feat := fmt.Sprintf("%s:alias=%s:%s", order, aliasKind, aliasPos)
+					rd := ReplayDoc{Cfg: "none", Files: map[string]string{"ast.json": string(b)}, Argv: []string{"(rbs2json with a stand-in ruby printing ast.json)"}, Observed: head(out, 1500)}
+					if err != nil {
+						bySig["c25:converter-failed:shared-name"] = append(bySig["c25:converter-failed:shared-name"], viol{feat + ": " + err.Error(), rd})
+						continue
+					}
+					var cfg struct {
+						InstanceMethods []struct {
+							Name       string           `json:"name"`
+							Arguments  []map[string]any `json:"arguments"`
+							ReturnType struct {
+								Type []string `json:"type"`
+							} `json:"return_type"`
+						} `json:"instance_methods"`
+						ClassMethods []struct {
+							Name       string           `json:"name"`
+							Arguments  []map[string]any `json:"arguments"`
+							ReturnType struct {
+								Type []string `json:"type"`
+							} `json:"return_type"`
+						} `json:"class_methods"`
+					}
+					if json.Unmarshal([]byte(out), &cfg) != nil {
+						bySig["c25:output-not-json:shared-name"] = append(bySig["c25:output-not-json:shared-name"], viol{feat, rd})
+						continue
+					}
+					got := map[string]string{}
+					for _, m := range cfg.InstanceMethods {
+						got["instance."+m.Name] = fmt.Sprintf("%d/%s", len(m.Arguments), strings.Join(m.ReturnType.Type, "|"))
+					}
+					for _, m := range cfg.ClassMethods {
+						got["singleton."+m.Name] = fmt.Sprintf("%d/%s", len(m.Arguments), strings.Join(m.ReturnType.Type, "|"))
+					}
+					exp := map[string]string{"instance.size": want["instance"][0] + "/" + want["instance"][1], "singleton.size": want["singleton"][0] + "/" + want["singleton"][1],
+						aliasKind + ".length": want[aliasKind][0] + "/" + want[aliasKind][1]}
+					for k, e := range exp {
+						if got[k] != e {
+							sig := "c25:shared-name:" + feat + ":" + k
+							bySig[sig] = append(bySig[sig], viol{fmt.Sprintf("%s: %s emitted as (argument count/return type) %q, expected %q", feat, k, got[k], e), rd})
+						}
+					}
+				}
+			}
+		}
+		r.Extra["shared_name_documents"] = n
+	}
 	res := x.pool.RunAll(cases)
 	var recs []execRec
 	for i, rr := range res {
